@@ -28,7 +28,7 @@ for p in props:
             design_ref=f"DESIGN.md section 2, {pid}",
         ),
         level_note=LEVEL_NOTES.get(pid, "trusted base: the harness' reference model (harness/src/spec.rs), Miri/ASan/the MMU as detectors, rustc; sanitizer silence is not memory safety"),
-        technique=PLANS[pid].get("technique", TECH),
+        technique=PLANS[pid].get("technique", TECH + (", plus coverage-guided libFuzzer+ASan exploration through the same oracle" if "fuzz" in engines else "")),
     ))
 m = dict(
     version=1,
